@@ -47,6 +47,9 @@ class LemmaCtx:
     def on_nth(self, ss, i):
         pass
 
+    def byte_fact(self, e):
+        self.pc.append(z3.And(e >= 0, e < 256))
+
     def prove_now(self, f, timeout_ms=500):
         f = V.simplify_bool(f)
         if isinstance(f, bool):
@@ -127,6 +130,10 @@ class Snap:
 
     def inst(self, k):
         pass
+
+    def appended(self, old, f):
+        r = V.strip_prefix(self.out(f), old.out(f))
+        return r if r is not None else V.slice_(self.out(f), V.L(old.out(f)), None)
 
     @property
     def old(self):
